@@ -264,9 +264,19 @@ class AssociateIdsTask(Task):
         c.ext_models["socket.AF_INET6"] = lambda I, a, k: 10
 
         def deepcopy(I, a, k):
+            # library contract of copy.deepcopy: a copy of ONE object is a new object with equal content; a copy of a LIST keeps
+            # the sharing between its positions (the same object listed twice is copied once and still listed twice)
             src = a[0]
-            I.ghost["copied"] = src
-            return SymSeq("copied_contexts", src.length, I.ghost["mk_ctx"])
+            g = I.ghost
+            if isinstance(src, SymSeq):
+                g["copied"] = src
+                g["copy_granularity"] = "whole-list"
+                return SymSeq("copied_contexts", src.length, g["mk_ctx"])
+            if isinstance(src, Obj) and hasattr(src, "index"):
+                g["copy_granularity"] = "per-position"
+                g["copied_elem_of"] = True
+                return g["mk_ctx"](src.index)
+            raise Unsupported("deepcopy of an unexpected value in associate()")
         c.ext_models["copy.deepcopy"] = deepcopy
         c.summaries["pynetdicom.transport:AddressInformation.from_addr_port"] = lambda I, a, k: Env("remote_address")
         c.summaries["pynetdicom.transport:AddressInformation.from_tuple"] = lambda I, a, k: Env("local_address")
@@ -293,9 +303,16 @@ class AssociateIdsTask(Task):
         n = I.input("int", "n_contexts")
         I.assume(n.e >= 0)
 
+        prior = {}
+
         def mk_ctx(j):
             o = Obj(pc_cls, tag="requested_cx")
-            o.fields.update(_context_id=None, _abstract_syntax=Env("ab"), _transfer_syntax=[Env("ts")], result=None, _scu_role=None,
+            # a context handed to associate() may already carry an id (e.g. the accepted context of an earlier association, or
+            # one that was numbered by the caller): an opaque value that may be None (decided only where the code looks at it)
+            k = str(z3.simplify(j)) if not isinstance(j, int) else str(j)
+            if k not in prior:
+                prior[k] = I.opaque("prior_context_id", nonnull=False)
+            o.fields.update(_context_id=prior[k], _abstract_syntax=Env("ab"), _transfer_syntax=[Env("ts")], result=None, _scu_role=None,
                             _scp_role=None, _as_scu=None, _as_scp=None)
             o.index = j
             return o
@@ -333,8 +350,18 @@ class AssociateIdsTask(Task):
             return
         I.ob(f"{P}/accepts-only-1-to-128-contexts", z3.And(n.e >= 1, n.e <= 128))
         reqs = [e for e in I.trace if e.name == "setattr" and e.args[1] == "requested_contexts"]
-        I.ob(f"{P}/the-numbered-copy-is-what-the-association-proposes", len(reqs) == 1 and isinstance(reqs[0].args[2], SymSeq)
-             and reqs[0].args[2].name == "copied_contexts" and g.get("copied") is contexts)
+        prop = reqs[0].args[2] if len(reqs) == 1 else None
+        whole = isinstance(prop, SymSeq) and prop.name == "copied_contexts" and g.get("copied") is contexts
+        per_pos = False
+        if isinstance(prop, SymSeq) and prop.name.startswith("comp!"):
+            j = I.fresh("int", "probe").e
+            g["copy_granularity"] = None
+            el = prop.elem(j)
+            per_pos = g.get("copy_granularity") == "per-position" and isinstance(el, Obj) and getattr(el, "index", None) is not None and I.valid(el.index == j) and I.valid(prop.length == contexts.length)
+        I.ob(f"{P}/the-numbered-copy-is-what-the-association-proposes", bool(whole or per_pos), detail=repr(getattr(prop, "name", prop)))
+        # distinct ids need distinct objects: the same context listed twice must not be one object after the copy
+        I.ob(f"{P}/each-list-position-gets-its-own-copy:a-context-listed-twice-is-numbered-twice", bool(per_pos),
+             detail=f"copy granularity: {g.get('copy_granularity')}")
 
 
 class IdsLemma(Task):
